@@ -38,6 +38,7 @@ const STAGES: &[(&str, StageFn)] = &[
     ("c02.streams", c02::streams),
     ("c03.maps", c03::maps),
     ("c03.headers", c03::headers),
+    ("c03.concurrent", c03::concurrent),
     ("c04.one", c04::one),
     ("c04.file", c04::file),
     ("c04.cli", c04::cli),
@@ -51,6 +52,8 @@ const STAGES: &[(&str, StageFn)] = &[
     ("c05.cli", c05::cli),
     ("c05.stress", c05::stress),
     ("c05.manyrecs", c05::manyrecs),
+    ("c05.manybatches", c05::manybatches),
+    ("cgr.manybatches", cgr::manybatches),
     ("c05.hugebatch", c05::hugebatch),
     ("c14.stress", c05::stress),
     ("c06.files", c06::files),
@@ -83,6 +86,7 @@ const STAGES: &[(&str, StageFn)] = &[
     ("c10.cli", c10::cli),
     ("c10.stress", c10::stress),
     ("c10.large", c10::large),
+    ("c10.bulk", c10::bulk),
     ("c11.one", cgr::one),
     ("c11.reject", cgr::reject),
     ("c11.file", cgr::file),
